@@ -407,7 +407,10 @@ static Obj encode(const Obs& o, const Cfg& c, const Obs* prev, const Obs* twin, 
     };
     Obj r;
     r.kv("B", raw(o.B)).kv("v", raw(o.v)).kv("p", raw(o.p)).kv("F", raw(o.F));
-    if (twin && !twin->failed) r.kv("tB", raw(twin->B)).kv("tv", raw(twin->v)).kv("tp", raw(twin->p));
+    if (twin && !twin->failed) r.kv("tB", raw(twin->B)).kv("tv", raw(twin->v)).kv("tp", raw(twin->p)).kv("tsl", twin->sl).kv("tsu", twin->su);
+    Arr rs;
+    for (const auto& x : c.restr) rs.add(raw({x.lo, x.hi}) + (x.il ? "[" : "]") + (x.iu ? "]" : "["));
+    r.kv("restr", rs);
     j.kv("raw", r);
   }
   return j;
@@ -731,7 +734,13 @@ public:
       for (const auto& p : cfg.par) t.push_back(Target{-1, p.first});
     for (size_t k = 0; k < cfg.inner.size(); ++k)
       if (cfg.inner[k].fam != "uniform")
-        for (const auto& p : cfg.inner[k].par) t.push_back(Target{static_cast<int>(k), p.first});
+        for (const auto& p : cfg.inner[k].par)
+        {
+          // known finding: a restriction tightens the nested truncation point's constraint, the copy of the
+          // parameter held by the compound does not know, and a change refused by the nested object leaks
+          if (p.first == "tp" && !cfg.restr.empty() && avoid("C09-compound-refused-nested-change-leaks")) continue;
+          t.push_back(Target{static_cast<int>(k), p.first});
+        }
     return t;
   }
   double goodValue(const Target& t)
@@ -1062,6 +1071,21 @@ void Runner::probe(const std::string& id)
     c.scheme = 1;
     c.par = {{"alpha", 100.0}, {"beta", 0.1}};
     doConstruct(c);
+  }
+  else if (id == "C09-compound-refused-nested-change-leaks")
+  {
+    c.fam = "invariant";
+    c.n = 2;
+    c.par = {{"p", 0.25}};
+    Cfg in;
+    in.fam = "truncexp";
+    in.n = 2;
+    in.par = {{"lambda", 1.0}, {"tp", 2.0}};
+    c.inner.push_back(in);
+    if (!doConstruct(c)) return;
+    doRestrict(Restr{-1.0, 3.0, true, true});                                        // tp must now stay <= 3 (nested constraint only)
+    doSetParam({{Target{-1, "p"}, 0.75}, {Target{0, "tp"}, 5.0}}, 1);                // refused by the nested object ...
+    doSetMedian(true);                                                               // ... but p = 0.75 shows up here
   }
   else if (id == "C09-median-values-leave-their-class")
   {
